@@ -13,6 +13,8 @@ func (ex *Exec) sliceLen(s RefV) *Term {
 			n = Ite(a.C, t.Len, n)
 		case BoxT:
 			n = Ite(a.C, BVC(2, 64), n) // length of marshalled JSON: opaque positive
+		case LineT:
+			n = Ite(a.C, Ite(t.Cell.Blank, BVC(0, 64), BVC(2, 64)), n)
 		default:
 			panic(unsupported("len of %T", a.Tgt))
 		}
